@@ -35,7 +35,9 @@
 (***************************************************************************)
 EXTENDS DaemonRouting
 
-CONSTANTS Skip,     \* set of <<endpoint, body class>> pairs the environment does not send (known holes)
+\* Restrictions of the environment, to explore AROUND a confirmed and not yet repaired defect.  There is none at
+\* present (F1 and F40 are repaired): every configuration uses Skip = {} and NoScan = FALSE.
+CONSTANTS Skip,     \* set of <<endpoint, body class>> pairs the environment does not send
           NoScan    \* TRUE: the environment sends no routed request whose chain hash is unknown to the daemon
 
 VARIABLES ns,       \* node state of the target chain
@@ -108,15 +110,15 @@ WellFormed(c) ==
 -----------------------------------------------------------------------------
 (* programs                                                                  *)
 
-\* dd.readBeaconID (dd.state read-locked with defer only when a hash is given; scans the processes,
-\* read-locking each, when the hash is unknown) then dd.getBeaconProcessByID (dd.state WRITE lock)
+\* dd.readBeaconID: with a chain hash, dd.state is read-locked to look the hash up and - when it is unknown - to
+\* pick the process of the (canonical) beacon id; dd.state is RELEASED before that process' state is read-locked
+\* (a beacon process registers its chain hash with the daemon while holding its own state lock, see DKGCompleteOps).
+\* Then dd.getBeaconProcessByID (dd.state WRITE lock).
 ReadIDOps(s, c) ==
   IF c.hash = NoneTok THEN <<>>
-  ELSE IF c.hash \in DOMAIN s.hashes THEN <<Acq("dd", "R", TRUE), Rel("dd")>>
-  ELSE <<Acq("dd", "R", TRUE)>>
-       \o Flat([i \in 1..Cardinality(DOMAIN s.procs) |->
-                  <<Acq(BP(SeqOfSet(DOMAIN s.procs)[i]), "R", FALSE), Rel(BP(SeqOfSet(DOMAIN s.procs)[i]))>>])
-       \o <<Rel("dd")>>
+  ELSE <<Acq("dd", "R", FALSE), Rel("dd")>>
+       \o (IF c.hash \notin DOMAIN s.hashes /\ Canon(c.id) \in DOMAIN s.procs
+            THEN <<Acq(BP(Canon(c.id)), "R", FALSE), Rel(BP(Canon(c.id)))>> ELSE <<>>)
 GetProcOps == <<Acq("dd", "W", FALSE), Rel("dd")>>
 
 HandlerOps(s, c, x) ==
@@ -135,18 +137,23 @@ RoutedOps(s, c) ==
   ELSE IF rid \notin DOMAIN s.procs THEN ReadIDOps(s, c) \o GetProcOps \o <<Ret("reject")>>
   ELSE ReadIDOps(s, c) \o GetProcOps \o HandlerOps(s, c, rid)
 
-\* dd.Packet (proxy) then dkg.Process.Packet: d.lock with defer; the Dkg variant calls d.BroadcastDKG,
-\* which dereferences packet.Dkg.Metadata and then takes d.lock AGAIN
+\* dd.Packet (proxy) then dkg.Process.Packet: metadata and signature length are checked without any lock; the Dkg
+\* variant is handed to d.BroadcastDKG WITHOUT d.lock held (a short locked look at SeenPackets before, BroadcastDKG
+\* rejects a packet without inner packet / metadata and takes d.lock itself to find the execution); every other
+\* variant is applied to the DKG state under d.lock (defer).
 DKGPacketOps(nsv, s, c) ==
   IF c.gm = "nil" THEN <<Ret("reject")>>
   ELSE IF c.id \notin DOMAIN s.procs THEN <<Ret("reject")>>                 \* beaconExists on the raw id
+  ELSE IF c.gm = "shortSig" THEN <<Ret("reject")>>
+  ELSE IF c.body \in {"dkgNilInner", "dkgNoMeta", "dkgWithMeta"}
+    THEN <<Acq("dkg", "W", TRUE), Rel("dkg")>>                              \* hasSeenPacket
+         \o (IF c.body = "dkgWithMeta" THEN <<Acq("dkg", "W", FALSE), Rel("dkg")>> ELSE <<>>)
+         \o <<Ret("reject")>>                                               \* no execution in progress in these node states
   ELSE <<Acq("dkg", "W", TRUE)>> \o
-       (IF c.gm = "shortSig" THEN <<Rel("dkg"), Ret("reject")>>
-        ELSE CASE c.body \in {"dkgNilInner", "dkgNoMeta"} -> <<Panic>>
-               [] c.body = "dkgWithMeta" -> <<Acq("dkg", "W", FALSE), Rel("dkg"), Rel("dkg"), Ret("reject")>>
-               \* DBState.Proposed reads terms.Leader.Address once the state change is admissible
-               [] c.body = "proposalNoLeader" /\ ((c.id = Target /\ AdmitsProposal(nsv)) \/ c.id = Bystander) -> <<Panic>>
-               [] OTHER -> <<Rel("dkg"), Ret("reject")>>)
+       (\* DBState.Proposed reads terms.Leader.Address once the state change is admissible
+        IF c.body = "proposalNoLeader" /\ ((c.id = Target /\ AdmitsProposal(nsv)) \/ c.id = Bystander)
+          THEN <<Panic>>
+          ELSE <<Rel("dkg"), Ret("reject")>>)
 
 BroadcastOps(s, c) ==
   IF c.body \in {"nilDkg", "noMeta"} THEN <<Ret("reject")>>
